@@ -183,3 +183,28 @@ Proof.
   split. { intros H. apply H. now left. }
   vm_compute. split; [reflexivity|]. split; [discriminate|]. split; reflexivity.
 Qed.
+
+(** ** The two premises on delegated phases cannot be dropped *)
+Definition second_world (sw : sworld) : sworld := world_after (pass10 (world_after (pass10 sw))).
+
+(** without [remotes_ok]: the pass that creates a phase object is not a fixpoint of itself *)
+Theorem pass_fixpoint_creating_refuted :
+  exists sw mem0, find_set (sw_sets sw) KObjectSet 1 10 = Some mem0 /\ is_active mem0 /\ os_life mem0 <> LPaused /\
+    members_wf sw mem0 /\ remotes_recorded sw mem0 /\ not_own_prev mem0 /\
+    second_world sw <> world_after (pass10 sw).
+Proof.
+  exists qd_fresh, (qd_set []). split; [reflexivity|]. split; [repeat split; discriminate|]. split; [discriminate|].
+  split; [apply members_wf_store; vm_compute; reflexivity|].
+  split. { intros ph p [<-|[<-|[]]] Hc (cur & Hf & _); [discriminate|]. vm_compute in Hf. discriminate. }
+  split; [intros []|]. vm_compute. discriminate.
+Qed.
+
+(** without [remotes_recorded \/ not_own_prev]: an ObjectSet that is its own previous revision *)
+Theorem pass_fixpoint_self_previous_refuted :
+  exists sw mem0, find_set (sw_sets sw) KObjectSet 1 10 = Some mem0 /\ is_active mem0 /\ os_life mem0 <> LPaused /\
+    members_wf sw mem0 /\ remotes_ok sw mem0 /\
+    second_world sw <> world_after (pass10 sw).
+Proof.
+  exists qs_world, qs_set. destruct qs_self_previous_not_fixpoint as (H1 & H2 & H3 & H4 & H5 & _ & _ & H6 & _).
+  split; [exact H1|]. split; [exact H2|]. split; [exact H3|]. split; [exact H4|]. split; [exact H5|exact H6].
+Qed.
